@@ -290,7 +290,8 @@ class MPSConv1d(nn.Conv1d, MPSModule):
         v = dict(vars(self))
         # TODO: detach to be double-checked
         v['in_channels'] = self.input_features_calculator.features.detach()
-        v['out_channels'] = self.out_features_eff
+        # the share of each precision (w_theta_alpha) already accounts for pruned channels
+        v['out_channels'] = self.out_channels
         return v
 
     def get_cost(self, cost_fn: CostFn, out_shape: Dict[str, Any]) -> torch.Tensor:
